@@ -38,6 +38,11 @@ class InterpProp(Prop):
     chunk = 40
     run_timeout_s = 60.0
 
+    def setup_process(self):
+        import logging
+
+        logging.disable(logging.CRITICAL)
+
     def shrink(self, sc):
         # nested bodies
         prog = sc.get("program")
